@@ -42,8 +42,8 @@ def setup(ctx):
     from gaddlemaps.components import SystemGro
     from gaddlemaps.parsers import GroFile
     for name in ('__iter__', '__getitem__', '__len__', '_parse_gro', '_add_residue_init', '_molecules_ordered_all_gen'):
-        _cov.watch(SystemGro.__dict__[name], f'SystemGro.{name}')
-    _cov.watch(GroFile.__dict__['seek_atom'], 'GroFile.seek_atom')
+        _cov.watch_attr(SystemGro, name, f'SystemGro.{name}')
+    _cov.watch_attr(GroFile, 'seek_atom', 'GroFile.seek_atom')
     _cov.start()
     _tmp['dir'] = tempfile.mkdtemp(prefix='gmv_c12_')
 
